@@ -399,6 +399,23 @@ func synthesize(e *env, duty core.Duty, rng *rand.Rand) []base {
 	}
 	just = append(just, prepares...)
 	out = append(out, base{Name: "built-pre_prepare-justified#0", From: leader2, W: &pbv1.QBFTConsensusMsg{Msg: e.mkMsg(1, duty, leader2, 2, h1[:], 0, zero32()), Justification: just, Values: []*anypb.Any{anyOf(v1)}}})
+	// the largest justification an honest leader can attach (getJustifiedQrc does not trim to quorum size):
+	// ROUND-CHANGEs of all n members plus PREPAREs of all n members = 2n entries, exactly the documented limit
+	{
+		var jmax []*pbv1.QBFTMsg
+		allPrep := append([]*pbv1.QBFTMsg(nil), prepares...)
+		for i := q; i < e.n; i++ {
+			allPrep = append(allPrep, e.mkMsg(2, duty, i, 1, h1[:], 0, zero32()))
+		}
+		jmax = append(jmax, rc)
+		for i := 1; i < e.n; i++ {
+			jmax = append(jmax, e.mkMsg(4, duty, i, 2, zero32(), 0, zero32()))
+		}
+		jmax = append(jmax, allPrep...)
+		out = append(out, base{Name: "built-pre_prepare-justified-max#0", From: leader2, W: &pbv1.QBFTConsensusMsg{Msg: e.mkMsg(1, duty, leader2, 2, h1[:], 0, zero32()), Justification: jmax, Values: []*anypb.Any{anyOf(v1)}}})
+		// one below the limit: all round changes plus a quorum of prepares (n+q)
+		out = append(out, base{Name: "built-pre_prepare-justified-n-plus-q#0", From: leader2, W: &pbv1.QBFTConsensusMsg{Msg: e.mkMsg(1, duty, leader2, 2, h1[:], 0, zero32()), Justification: append(append([]*pbv1.QBFTMsg(nil), jmax[:e.n]...), prepares...), Values: []*anypb.Any{anyOf(v1)}}})
+	}
 	// DECIDED with a commit quorum
 	var commits []*pbv1.QBFTMsg
 	for i := 0; i < q; i++ {
@@ -715,6 +732,18 @@ func alterations(in *injector, b base, duty core.Duty, distinct func(string)) {
 			w.Justification[i] = signIndep(j, e.keys[j.GetPeerIdx()])
 		}
 		in.mustReject("duty-beyond-allowed-window", "msg.duty.slot", b.From, w, b.Name)
+	}
+	// boundary slots: values at which a signed / narrowed epoch comparison wraps (2^63, 2^63+now, max uint64, 2^32…)
+	for _, bs := range []uint64{1 << 63, 1<<63 + duty.Slot, ^uint64(0), ^uint64(0) - duty.Slot, 1<<32 + duty.Slot + 100*e.slotsPerEpoch, 1 << 62} {
+		w := proto.Clone(b.W).(*pbv1.QBFTConsensusMsg)
+		far := core.DutyToProto(core.Duty{Slot: bs, Type: core.DutyFromProto(b.W.GetMsg().GetDuty()).Type})
+		w.Msg.Duty = far
+		w.Msg = signIndep(w.Msg, e.keys[w.Msg.GetPeerIdx()])
+		for i, j := range w.Justification {
+			j.Duty = far
+			w.Justification[i] = signIndep(j, e.keys[j.GetPeerIdx()])
+		}
+		in.mustReject("duty-beyond-allowed-window", "msg.duty.slot(boundary)", b.From, w, b.Name)
 	}
 	{ // expired duty per the deadliner (everything re-signed for that duty)
 		exp := core.Duty{Slot: duty.Slot - 40, Type: core.DutyFromProto(b.W.GetMsg().GetDuty()).Type}
